@@ -264,6 +264,7 @@ def run_case(ctx, P, stream, idx):
         return
     try:
         after_tree = ast.parse(after)
+        compile(after, "<after sync_properties>", "exec")  # (the compiler refuses more than the grammar does)
     except SyntaxError as e:
         return dev("output-not-python", "output no longer parses: %r" % (e,))
     before_tree = ast.parse(out_src)
